@@ -56,20 +56,21 @@ def _key(kind):
     return ec.generate_private_key(ec.SECP256R1())
 
 
-def _build(kind: str, cn: str = "localhost"):
+def _build(kind: str, cn: str = "localhost", label: str | None = None):
     from cryptography import x509
     from cryptography.hazmat.primitives import hashes, serialization
     from cryptography.x509.oid import NameOID
 
     key = _key(kind)
-    name = x509.Name([x509.NameAttribute(NameOID.COMMON_NAME, cn + "-" + kind)])
+    label = label or kind  # twins: same names and serial number, different keys
+    name = x509.Name([x509.NameAttribute(NameOID.COMMON_NAME, cn + "-" + label)])
     now = datetime.datetime(2026, 1, 1, tzinfo=datetime.timezone.utc)
     b = (
         x509.CertificateBuilder()
         .subject_name(name)
         .issuer_name(name)
         .public_key(key.public_key())
-        .serial_number(int.from_bytes(hashlib.sha256(kind.encode()).digest()[:8], "big") | 1)
+        .serial_number(int.from_bytes(hashlib.sha256(label.encode()).digest()[:8], "big") | 1)
         .not_valid_before(now)
         .not_valid_after(now + datetime.timedelta(days=3650))
         .add_extension(x509.BasicConstraints(ca=True, path_length=None), critical=True)
@@ -142,7 +143,7 @@ def get(kind: str) -> Cert:
         der, key_pem = _resign(kind, _mut_bool if kind == "hostile-bool" else _mut_version)
         pem = b"-----BEGIN CERTIFICATE-----\n" + base64.encodebytes(der) + b"-----END CERTIFICATE-----\n"
     else:
-        _key_obj, cert, key_pem = _build(kind)
+        _key_obj, cert, key_pem = _build("ec-" + kind, label="twin") if kind.startswith("twin") else _build(kind)
         der = cert.public_bytes(serialization.Encoding.DER)
         pem = cert.public_bytes(serialization.Encoding.PEM)
     c = Cert(kind, der, key_pem, pem)
